@@ -170,6 +170,10 @@ FORMS = [
     # an attribute of A next to the value of an entity whose id starts with A's id
     ("prefix_entity", [("f1", [Dec("\"pyscript.a.x == 1 and pyscript.ab == '0'\"",
                                   lambda e: e.X(A, "x") == 1 and e.V(AB) == "0", [A + ".x", AB])])]),
+    # state variables below a method call on a call result / on a parenthesised expression are watched too
+    ("method_chain", [("f1", [Dec("\"str(pyscript.a).lower().strip() == '1'\"", lambda e: str(e.V(A)).lower().strip() == "1", [A])])]),
+    ("paren_method", [("f1", [Dec("\"(pyscript.a + pyscript.b).upper() == '11'\"",
+                                 lambda e: (e.V(A) + e.V(B)).upper() == "11", [A, B])])]),
     ("two_functions", [("f1", [Dec("\"pyscript.a == '1'\"", lambda e: e.V(A) == "1", [A])]),
                        ("f2", [Dec("\"pyscript.a == '0' or pyscript.b == '1'\"", lambda e: e.V(A) == "0" or e.V(B) == "1", [A, B])])]),
 ]
